@@ -18,6 +18,10 @@ REPO = ROOT + '/repo'
 VD = ROOT + '/vdir'
 SCHED = ('C07', 'C08', 'C15', 'C16')
 ALL = ['C%02d' % i for i in range(1, 21)]
+# REGRESS_IDS=C04,C05,...: restrict the run to these properties (seeded: changes that target them; benign: these checks)
+ONLY = [x for x in os.environ.get('REGRESS_IDS', '').split(',') if x]
+if ONLY:
+    ALL = [x for x in ALL if x in ONLY]
 env = dict(os.environ, CARGO_NET_OFFLINE='true', SEQIO_VERIF_DIR=VD, RUST_BACKTRACE='0', VERIF_CASE_TIMEOUT='60')
 env.pop('VERIF_SCALE', None)
 
@@ -85,6 +89,8 @@ if MODE == 'seeded':
 else:
     dirs = sorted(glob.glob(V + '/seeded/benign/[wx]*'))
 dirs = [d for d in dirs if os.path.basename(d).startswith(PREFIX)]
+if ONLY and MODE == 'seeded':
+    dirs = [d for d in dirs if os.path.basename(d)[:3] in ONLY]
 for d in dirs:
     name = os.path.basename(d)
     restore()
